@@ -23,7 +23,7 @@ var ErrCodec = errors.New("codec: cannot parse")
 var ErrInvalidUTF8 = errors.New("codec: string field contains invalid UTF-8")
 
 func putBytes(out []byte, b []byte) []byte {
-	out = append(out, byte(len(b)))
+	out = append(out, byte(len(b)), byte(len(b)>>8))
 	return append(out, b...)
 }
 
@@ -35,17 +35,17 @@ type dec struct {
 }
 
 func (d *dec) bytes() []byte {
-	if d.bad || len(d.b) < 1 {
+	if d.bad || len(d.b) < 2 {
 		d.bad = true
 		return nil
 	}
-	n := int(Concrete(int(d.b[0])))
-	if len(d.b) < 1+n {
+	n := int(Concrete(int(d.b[0]))) | int(Concrete(int(d.b[1])))<<8
+	if len(d.b) < 2+n {
 		d.bad = true
 		return nil
 	}
-	v := d.b[1 : 1+n]
-	d.b = d.b[1+n:]
+	v := d.b[2 : 2+n]
+	d.b = d.b[2+n:]
 	if n == 0 {
 		return nil
 	}
@@ -65,7 +65,7 @@ func (d *dec) u64() uint64 {
 func CodecMarshal(m proto.Message) ([]byte, error) {
 	switch x := m.(type) {
 	case *sst.IndexEntry:
-		if len(x.Key) > 255 {
+		if len(x.Key) > 65535 {
 			return nil, ErrCodec
 		}
 		out := []byte{1}
